@@ -1,6 +1,7 @@
 import Netconan.Driver.Ip
 import Netconan.Driver.Jun
 import Netconan.Driver.Fa
+import Netconan.Driver.CliD
 /-! The model driver: one operation per line on stdin, one reply per line on stdout. -/
 namespace Netconan.Driver
 
@@ -19,6 +20,9 @@ def stepLine (st : St) (line : String) : St × String :=
   | none =>
   match faCmd st.env st.fas ws with
   | some (out, fas) => ({ st with fas := fas }, out)
+  | none =>
+  match cliCmd ws with
+  | some out => (st, out)
   | none => (st, "bad-op")
 
 partial def loop (h : IO.FS.Stream) (out : IO.FS.Stream) (st : St) : IO Unit := do
